@@ -1,8 +1,9 @@
 #!/bin/bash
-# tools/run_all.sh [tier] : runs every claimed check once, prints one summary line each
+# tools/run_all.sh [tier] : runs every claimed check once (or those in $CHECKS), prints one summary line each
 cd "$(dirname "$0")/.."
 TIER=${1:-quick}
-for c in C01 C02 C03 C04 C05 C06 C07 C08 C09 C10 C11 C12 C13 C14 C15 C16 C17 C18 C19 C20; do
+ALL="C01 C02 C03 C04 C05 C06 C07 C08 C09 C10 C11 C12 C13 C14 C15 C16 C17 C18 C19 C20"
+for c in ${CHECKS:-$ALL}; do
   out=$(./check $c --tier $TIER 2>&1); rc=$?
   echo "rc=$rc $(echo "$out" | grep "^$c " | tail -1)"
 done
